@@ -283,12 +283,93 @@ def run_set(ctx, proof):
     return spkcommon.oracle_only(ctx, proof, cases, set_line, set_oracle, "loop prevention towards a peer over AS_PATHs with AS_SET segments (rule oracle only)")
 
 
+# ---------------------------------------------------------------- allow-own-as on receipt (outside the model; oracle only)
+OWN_PATHS = [("65001 65020", 0), ("65001 65000", 1), ("65001 s:65002:65000", 1), ("65001 65000 s:65002:65000", 2), ("65001 65000 | 65000 65030", 2),
+             ("65001 65000 65000", 2), ("65001 65000 | 65000 s:65000:7", 3), ("65001 65000 | 65030 | 65000", 2), ("65001 s:65000:65000", 2)]
+OWN_PFX = ["10.1.0.0/24", "10.2.0.0/24", "10.3.0.0/16"]
+
+
+def gen_allow(rng):
+    k = rng.choice([0, 1, 1, 2])
+    ev = []
+    for _ in range(rng.choice([2, 4, 6])):
+        ev.append((rng.choice(OWN_PFX), rng.choice(OWN_PATHS)))
+    return {"allow": k, "events": ev}
+
+
+def allow_line(c):
+    steps = ["(up a)", "(up b)"]
+    for pf, (path, _) in c["events"]:
+        steps.append("(upd a (a %s 0 (%s) - - 0 () - ()))" % (pf, path))
+    steps.append("(obs)")
+    return "(sim (global 65000 1.1.1.1 sync) (peers (a 10.0.0.1 65001%s) (b 10.0.0.2 65002)) (steps %s))" % (" allowown=%d" % c["allow"] if c["allow"] else "", " ".join(steps))
+
+
+def allow_oracle(c, out):
+    r = simlib.split_output(out)
+    if r is None or not r[0]:
+        return ("harness-error", "the scenario did not complete: " + out[:300])
+    o = r[0][-1]
+    last = {}
+    for pf, (path, n) in c["events"]:
+        last[pf] = (path, n)
+    for pf, (path, n) in last.items():
+        held = any(p["src"] == "10.0.0.1" for p in o["rib"].get(pf, []))
+        if held and n > c["allow"]:
+            return ("own-as-loop-accepted", "the route %s with AS_PATH (%s) -- the local AS %d times in all -- is in the Loc-RIB; allow-own-as is %d" % (pf, path, n, c["allow"]))
+        if not held and n <= c["allow"]:
+            return ("own-as-within-allowance-rejected", "the route %s with AS_PATH (%s) -- the local AS %d times -- is not in the Loc-RIB; allow-own-as is %d" % (pf, path, n, c["allow"]))
+    return None
+
+
+def run_allow(ctx, proof):
+    cases = [gen_allow(ctx.rng) for _ in range(ctx.scale(400, 8000))]
+    return spkcommon.oracle_only(ctx, proof, cases, allow_line, allow_oracle, "allow-own-as on receipt (hasOwnASLoop over the whole AS_PATH, all segment kinds)")
+
+
+# ---------------------------------------------------------------- hasOwnASLoop vs Rewrite.OwnAs.has_own_as_loop (hook VerifHasOwnASLoop)
+def gen_own(rng):
+    own = rng.choice([65000, 65000, 64512, 4200000000])
+    ce = rng.random() < 0.4
+    confed = rng.choice([64999, own, 65100]) if ce else rng.choice([0, 64999])
+    pool = [own, own, confed if confed else 65030, 65001, 65002, 65030, 7]
+    segs = []
+    for _ in range(rng.choice([0, 1, 1, 2, 2, 3, 4])):
+        segs.append((rng.choice([1, 2, 2, 3, 4]), [rng.choice(pool) for _ in range(rng.choice([0, 1, 2, 3, 5]))]))
+    return {"own": own, "limit": rng.choice([0, 0, 1, 1, 2, 3, 10]), "confed": confed, "ce": ce, "segs": segs}
+
+
+def own_line(c):
+    return "own %d %d %d %d (%s)" % (c["own"], c["limit"], c["confed"], 1 if c["ce"] else 0, " ".join("(%s)" % " ".join(map(str, [t] + m)) for t, m in c["segs"]))
+
+
+def own_oracle(c, out):
+    """the property text: a route is rejected iff the local AS (or the confederation identifier) occurs more than allow-own-as times in its AS_PATH"""
+    if out not in ("ok 0", "ok 1"):
+        return ("harness-error", out[:200])
+    n = sum(1 for _, m in c["segs"] for a in m if a == c["own"] or (c["ce"] and a == c["confed"]))
+    want = n > c["limit"]
+    if (out == "ok 1") != want:
+        return ("own-as-loop-accepted" if want else "own-as-within-allowance-rejected",
+                "hasOwnASLoop says %s for an AS_PATH holding the local AS / confederation identifier %d times with allow-own-as %d: %s" % (out[3:], n, c["limit"], own_line(c)))
+    return None
+
+
+def run_own(ctx, proof):
+    from vf import core
+    n = ctx.scale(6000, 200000)
+    cases = [gen_own(ctx.rng) for _ in range(n)]
+    return core.differential(ctx, "c09", proof, cases, own_line, own_oracle, nontrivial=lambda c: sum(len(m) for _, m in c["segs"]) >= 2,
+                             more_cases=lambda: [gen_own(ctx.rng) for _ in range(n)],
+                             correspondence_name="server.hasOwnASLoop (hook VerifHasOwnASLoop) vs Rewrite.OwnAs.has_own_as_loop"), cases
+
+
 def run(ctx):
     return spkcommon.run(ctx, "C09", oracle, "UpdatePathAttrs/filterpath/filterPathFromSourcePeer/handleUpdate vs Speaker.Model export/filter0/rejected",
                          ["AS_PATH is one AS_SEQUENCE of at most a few members; confederation, remove-private-as, replace-peer-as, "
                           "allow-own-as > 0, route-server clients and unknown non-transitive attributes are outside the model",
                           "cluster-id = router-id (the default)"],
-                         fields=("view", "rib", "adjin"), extra=[run_x, run_set])
+                         fields=("view", "rib", "adjin"), extra=[run_x, run_own, run_set, run_allow])
 
 
 def replay(ctx, path):
